@@ -66,7 +66,7 @@ CHECKS = {
     ),
     "C03": dict(
         level="exploration",
-        required_probes=['nonempty_rows_compared', 'cache_mode_switch', 'symmetry_toggle_and_set_up', 'resetup_geo_1', 'thread_blocked_on_lock_or_critical', 'interpolation_rows_compared'],
+        required_probes=['nonempty_rows_compared', 'cache_mode_switch', 'symmetry_toggle_and_set_up', 'resetup_geo_1', 'resetup_geo_5', 'thread_blocked_on_lock_or_critical', 'interpolation_rows_compared'],
         parts=[dict(harness="chk_C03", variant="seq", src="checks/chk_C03.cpp",
                     runs=dict(quick=1600, thorough=150000), wall_cap=dict(quick=110, thorough=1800)),
                dict(harness="chk_C03", variant="omp", src="checks/chk_C03.cpp",
